@@ -51,3 +51,38 @@ Qed.
 
 Lemma size_unravel s j : size (unravel s j) = size s.
 Proof. by elim: s j => //= n s IH j; rewrite IH. Qed.
+
+(* ---------- direction independence of the UTPM-level operations (C11) ---------- *)
+Section Dirs.
+Variable K : fieldType.
+Implicit Types (x y z : utpm K).
+
+(* the single-direction polynomial consisting of direction p alone *)
+Definition dirU x (p : nat) : utpm K := (x.1, [:: nth [::] x.2 p]).
+
+Lemma ser_dirU x p e : ser (dirU x p) 0 e = ser x p e.
+Proof. by []. Qed.
+
+Theorem unopU_dir (op : seq K -> seq K) x p : p < ndirs x ->
+  dirU (unopU op x) p = unopU op (dirU x p).
+Proof.
+by move=> lt_p; rewrite /dirU /unopU /= (nth_map [::]).
+Qed.
+
+Theorem binopU_dir (op : seq K -> seq K -> seq K) x y p : p < ndirs x ->
+  omap (fun z => dirU z p) (binopU op x y) = binopU op (dirU x p) (dirU y p).
+Proof.
+move=> lt_p; rewrite /binopU /=; case: (bshape x.1 y.1) => //= o.
+by rewrite /dirU /= (nth_map 0) ?size_iota // nth_iota // add0n.
+Qed.
+
+Theorem gatherU_dir (g : gather) x p : p < ndirs x ->
+  dirU (gatherU g x) p = gatherU g (dirU x p).
+Proof. by move=> lt_p; rewrite /dirU /gatherU /= (nth_map [::]). Qed.
+
+(* hence: the result in direction p is a function of direction p of the operands only *)
+Corollary binopU_dir_indep (op : seq K -> seq K -> seq K) x y x' y' p :
+  p < ndirs x -> p < ndirs x' -> dirU x p = dirU x' p -> dirU y p = dirU y' p ->
+  omap (fun z => dirU z p) (binopU op x y) = omap (fun z => dirU z p) (binopU op x' y').
+Proof. by move=> lt_p lt_p' ex ey; rewrite !binopU_dir // ex ey. Qed.
+End Dirs.
